@@ -84,13 +84,15 @@ Theorem C01_partial_dfs_exhaustive :
 Proof. exact dfs_exhaustive. Qed.
 Print Assumptions C01_partial_dfs_exhaustive.
 
-Require Import LV.PathApi LV.Prog LV.Objects LV.Exec LV.Check LV.ExecFacts LV.ExecFacts2.
+(* ==== appended by tools/mkprops.py (APPEND table) ==== *)
+
+Require Import LV.Base LV.VV LV.VVFacts LV.Path LV.PathSpec LV.PathTerm LV.PathDistinct LV.PathApi LV.Prog LV.Objects LV.Exec LV.Atomic LV.Ops LV.Check LV.PathExhaust LV.ExecFacts LV.ExecFacts2.
 
 (* the same on the concrete execution model *)
 (* the concrete iteration of the model L satisfies the second contract of dfs_exhaustive (one Active thread per entry, appended entries are fresh) *)
 Theorem C01_partial_L_iter_ok2 :
   forall (fuel : nat) (p : prog),
-       PathExhaust.iter_ok2 (fun pa : path => e_path (fst (iteration fuel p pa))).
+       iter_ok2 (fun pa : path => e_path (fst (iteration fuel p pa))).
 Proof. exact L_iter_ok2. Qed.
 Print Assumptions C01_partial_L_iter_ok2.
 
@@ -100,7 +102,7 @@ Theorem C01_partial_L_exhaustive_complete :
        let it := fun pa : path => e_path (fst (iteration fuel p pa)) in
        let n := S (BASE ^ cap (initial_path c)) in
        nth_error (explore it n (initial_path c)) k = Some ek ->
-       PathExhaust.registered ek q ch ->
+       registered ek q ch ->
        exists (j : nat) (ej : path),
          nth_error (explore it n (initial_path c)) j = Some ej /\
          firstn q (choices ej) = firstn q (choices ek) /\ nth_error (choices ej) q = Some ch.
